@@ -7,6 +7,7 @@ spec/grid/GridScen.tla   behaviours (W = 64) -> call sequences replayed on the r
 spec/grid/GridTrace.tla  records of the real GridBuilder / driver split / emu CU / timing CU judged by the property
 harness/cmd/c08          executes cases against the real code and logs what it produced
 """
+import bisect
 import itertools
 import json
 import os
@@ -146,6 +147,7 @@ def e2e_cases(rng, thorough):
     def e(g, s, plat, gpus, ver, flags=FLAGS_IDS | 4):
         return mk(g, s, mode='e2e', plat=plat, gpus=gpus, ver=ver, en=2, flags=flags)
     out = [e((150, 2, 1), (100, 2, 1), 'emu', 1, 3), e((200, 3, 2), (64, 2, 1), 'emu', 2, 5),
+           e((164, 2, 1), (100, 2, 1), 'r9nano', 1, 3),
            e((70, 9, 2), (3, 5, 7), 'emu', 3, 5, FLAGS_IDS | 1 | 2 | 4 | 8 | 16 | 32),
            e((200, 3, 1), (48, 2, 1), 'r9nano', 1, 3), e((130, 3, 1), (64, 2, 1), 'mi300a', 1, 5),
            e((1000, 1, 1), (64, 1, 1), 'mi300a', 2, 5), e((333, 2, 2), (100, 1, 2), 'r9nano', 2, 3, FLAGS_IDS | 4 | 2)]
@@ -227,12 +229,15 @@ def judge(ctx, trace, cases, label):
                    re.finditer(r'<<"DEVIATION", (\d+), "(\w+)">>', v['res'].out)})
     parts = vlib.split_traces(trace)
     ctx.cov['traces_validated_against_impl'] += len(parts)
+    starts = [st for st, _ in parts]
     reported = set()
     for line, name in devs:
-        start, recs = vlib.trace_containing(trace, line)
+        start, recs = parts[bisect.bisect_right(starts, line) - 1]
         ev = recs[line - start]
         c = recs[0].get('c') or {}
         where = ev.get('mode') or ev.get('plat') or 'GridBuilder'
+        if c.get('mode') == 'e2e':
+            where = 'emu' if c.get('plat') == 'emu' else 'timing'
         sig = {'kind': 'deviation', 'deviation': name, 'event': ev.get('e'), 'where': where}
         k = (name, where, ev.get('e'), json.dumps(c.get('g')), json.dumps(c.get('s')))
         if k in reported:
@@ -359,6 +364,7 @@ def build_cases(ctx, thorough):
     cases = []
     # the confirmed defect's geometry and relatives, with register dumps in both modes
     cases.append(mk((150, 2, 1), (100, 2, 1), regs=['emu', 'timing']))
+    cases.append(mk((164, 2, 1), (100, 2, 1), regs=['emu', 'timing']))
     cases.append(mk((70, 3, 2), (3, 5, 7), regs=['emu', 'timing'], ver=5))
     cases.append(mk((130, 1, 1), (64, 1, 1), regs=['emu', 'timing'], cus=[2, 1], ver=2))
     se = small_enum()
@@ -366,7 +372,7 @@ def build_cases(ctx, thorough):
     rng.shuffle(se)
     rng.shuffle(be)
     n_se, n_be, n_r, max_items = (len(se), len(be), 1500, 20000) if thorough else (110, 70, 70, 5000)
-    budget = 4000000 if thorough else 200000
+    budget = 2000000 if thorough else 200000
     pool = se[:n_se] + be[:n_be] + [rand_case(rng, max_items) for _ in range(n_r)]
     for i, c in enumerate(pool):
         k = rng.random()
@@ -449,6 +455,11 @@ def run(ctx, selftest=False):
 
     # 4. binding self-test on the cases that have register dumps and a split
     corr = corruptions()
+    if not thorough:
+        # quick tier: one corruption per kind of record (all twelve in thorough)
+        keep = {'e2e_drop_wavefront', 'e2e_wrong_wg_id_register', 'drop_work_group', 'flip_exec_mask_bit',
+                'announce_one_more', 'wrong_partial_size', 'corrupt_lane_id_register', 'overlapping_gpu_ranges'}
+        corr = [x for x in corr if x[0] in keep]
     t5, _ = run_cases(ctx, drv, [json.loads(json.dumps(ecases[1]))], 'selftest_e2e')
     common.selftest_binding(ctx, TSPEC, t5, [x for x in corr if x[0].startswith('e2e_')])
     res_e2e = ctx.cov['binding_selftest']
